@@ -239,7 +239,7 @@ fn process_dir(
         {
             Err(err) => {
                 ret = 1;
-                writeln!(&mut stderr(), "Error: {err}").unwrap();
+                writeln!(&mut stderr(), "Error: {err}").ok();
             }
             Ok(entry) => {
                 if config.depth_first {
@@ -411,7 +411,7 @@ pub fn find_main(args: &[&str], deps: &dyn Dependencies) -> i32 {
     match do_find(&args[1..], deps) {
         Ok(ret) => ret,
         Err(e) => {
-            writeln!(&mut stderr(), "Error: {e}").unwrap();
+            writeln!(&mut stderr(), "Error: {e}").ok();
             1
         }
     }
